@@ -3,7 +3,6 @@
 ; sequence as an uninterpreted function. Nothing is assumed about SHA-256
 ; except that it is a function and yields 32 bytes.
 (declare-fun |spec.HEmpty| () Int)
-(declare-fun |spec.HWrite| (Int (Array Int Int) Int Int) Int)
 (declare-fun |spec.HWriteS| (Int Str) Int)
 (declare-fun |spec.Sha| (Int) (Array Int Int))
 (assert (forall ((h Int) (j Int)) (! (and (<= 0 (select (|spec.Sha| h) j)) (<= (select (|spec.Sha| h) j) 255)) :pattern ((select (|spec.Sha| h) j)))))
